@@ -45,6 +45,10 @@ type Run struct {
 	start     time.Time
 	Extra     map[string]any
 	KnownPath string
+	// WideLoader loads the whole module for who-may rules on exported
+	// objects; nil means: use Prog.
+	WideLoader func() (*Prog, error)
+	wide       *Prog
 }
 
 // KnownFindings file format.
@@ -246,4 +250,23 @@ func sanitize(s string) string {
 		s = s[:120]
 	}
 	return s
+}
+
+// Wide returns the whole-module program (all packages of the root module),
+// loading it on first use. Without a loader (witness-mutant runs) the
+// property's own packages are used.
+func (r *Run) Wide() *Prog {
+	if r.wide != nil {
+		return r.wide
+	}
+	if r.WideLoader == nil {
+		r.wide = r.Prog
+		return r.wide
+	}
+	p, err := r.WideLoader()
+	if err != nil {
+		panic(AnchorError{Msg: "whole-module load failed: " + err.Error()})
+	}
+	r.wide = p
+	return p
 }
